@@ -253,9 +253,19 @@ pub fn policy_of(p: &str) -> Option<Option<usize>> {
     }
 }
 
+/// the cache key used by the harness: equality on the whole value, but a lawful `Hash` that is far from injective
+/// (only the two low bits), so that anything deciding key identity by hash alone is exposed
+#[derive(Debug, Clone, Copy, PartialEq, Eq)]
+pub struct WeakKey(pub u64);
+impl std::hash::Hash for WeakKey {
+    fn hash<H: std::hash::Hasher>(&self, h: &mut H) {
+        h.write_u8((self.0 & 3) as u8);
+    }
+}
+
 // ---------------------------------------------------------------- cache state + reference log (C06/C11/C12/C13)
 pub struct CacheSt {
-    pub cache: SliceCache<u64>,
+    pub cache: SliceCache<WeakKey>,
     pub cap: usize,
     /// every successful insertion, in order
     pub log: Vec<(u64, Vec<u8>)>,
@@ -465,12 +475,12 @@ fn step(ctx: &mut Ctx, line: &str) -> String {
         ["cget", k] => {
             let Ok(k) = k.parse::<u64>() else { return "bad-op".into() };
             let c = &ctx.cache.cache;
-            let g = match pc(|| c.get(&k).map(|v| v.to_vec())) {
+            let g = match pc(|| c.get(&WeakKey(k)).map(|v| v.to_vec())) {
                 Err(_) => "panic".to_string(),
                 Ok(None) => "none".into(),
                 Ok(Some(v)) => format!("some:{}", if v.is_empty() { "-".to_string() } else { hex(&v) }),
             };
-            let has = ps(|| c.contains(&k).to_string());
+            let has = ps(|| c.contains(&WeakKey(k)).to_string());
             format!("cget r={} has={}", g, has)
         }
         _ => "bad-op".into(),
